@@ -21,6 +21,7 @@ pub fn line(l: &str) -> String {
         .unwrap_or_default();
     let spurious = v["spurious"].as_u64().unwrap_or(0);
     let junk = v["junk"].as_bool().unwrap_or(false);
+    let preanswer = v["preanswer"].as_bool().unwrap_or(false);
     // "early": order ids whose host promise is settled while the script is still busy with later orders
     let early: Vec<u64> = v["early"].as_array().map(|a| a.iter().filter_map(|x| x.as_u64()).collect()).unwrap_or_default();
     let gc = v["gc"].as_bool().unwrap_or(false);
@@ -42,6 +43,7 @@ pub fn line(l: &str) -> String {
         }
     };
     let mut outstanding: Vec<u64> = Vec::new(); // reported, unanswered
+    let mut max_seen_id: u64 = 0;
     let mut seen_orders: u64 = 0; // number of orders reported so far (issue index)
     let mut promises: Vec<(u64, RuntimeValue, bool)> = Vec::new(); // (order id, promise, settled)
     let mut r = interp.prepare(&script, None);
@@ -64,6 +66,7 @@ pub fn line(l: &str) -> String {
                 for o in &pending {
                     let pj = js_value_to_json(o.payload.value()).map(|j| j.to_string()).unwrap_or_else(|_| "?".into());
                     evs.push(format!("P:{}:{}", o.id.0, pj));
+                    max_seen_id = max_seen_id.max(o.id.0);
                     outstanding.push(o.id.0);
                 }
                 for _ in 0..spurious {
@@ -136,6 +139,11 @@ pub fn line(l: &str) -> String {
                             promises[i].2 = true;
                             evs.push(format!("Z:{}:{}{}", id, if res { "res" } else { "rej" }, if outcome.is_err() { ":apierr" } else { "" }));
                         }
+                    }
+                    if preanswer {
+                        // an answer for the id the NEXT order will get (a host that answers ahead of time): the order must still be handed over
+                        let next_id = max_seen_id + 1;
+                        interp.fulfill_orders(vec![OrderResponse { id: OrderId(next_id), result: Ok(RuntimeValue::unguarded(JsValue::Number(-3.0))) }]);
                     }
                     if junk && first_outstanding > 1 {
                         // a duplicate answer for an id that was answered and consumed earlier
